@@ -198,7 +198,7 @@ theorem amr_volumes_sum (t : Tree) (b : Box3 ℝ) (g : Grid) (hx : 0 < g.nx) (hy
   ⟨volSum_eq t b, gridVolSum_eq g b hx hy hz⟩
 
 /-- descent by position (`get_key(position)`, `get_cell(position)`), exact arithmetic: for a
-position in the half-open box all computed indices are in range, the descent ends in a leaf of
+position in the half-open box the clamps are inactive, the descent ends in a leaf of
 the block whose box contains the position, the returned key is that leaf's key, and no other
 leaf of any block contains the position. -/
 theorem amr_contains (g : Grid) (b : Box3 ℝ) (p : V3 ℝ) (hx : 0 < g.nx) (hy : 0 < g.ny) (hz : 0 < g.nz)
@@ -207,7 +207,6 @@ theorem amr_contains (g : Grid) (b : Box3 ℝ) (p : V3 ℝ) (hx : 0 < g.nx) (hy 
     let iy := blockIndex g.ny p.y b.ay b.sy
     let iz := blockIndex g.nz p.z b.az b.sz
     ix < g.nx ∧ iy < g.ny ∧ iz < g.nz ∧
-    descendOutOfRange (g.block ix iy iz) p (blockBox g b ix iy iz) = false ∧
     InBox (gridLocate g b p).2 p ∧
     (∃ π ∈ leafPaths (g.block ix iy iz), (gridLocate g b p).1 = gridKey ix iy iz (encodeKey π) ∧
       (gridLocate g b p).2 = boxOfPath (blockBox g b ix iy iz) π) ∧
@@ -228,8 +227,8 @@ theorem amr_contains (g : Grid) (b : Box3 ℝ) (p : V3 ℝ) (hx : 0 < g.nx) (hy 
   have hin : InBox (blockBox g b ix iy iz) p := by
     unfold InBox blockBox; simp only
     exact ⟨bx1, bx2, by1, by2, bz1, bz2⟩
-  obtain ⟨h1, h2, π, hπ, h3, h4⟩ := descend_spec (g.block ix iy iz) 0 _ p (hpos ix iy iz) hin
-  refine ⟨bx, by', bz, h2, h1, ⟨π, hπ, ?_, h4⟩, ?_⟩
+  obtain ⟨h1, π, hπ, h3, h4⟩ := descend_spec (g.block ix iy iz) 0 _ p (hpos ix iy iz) hin
+  refine ⟨bx, by', bz, h1, ⟨π, hπ, ?_, h4⟩, ?_⟩
   · show gridKey ix iy iz (descend (g.block ix iy iz) 0 p (blockBox g b ix iy iz)).1 = _
     rw [h3]; simp
   · intro jx jy jz π' hπ' hin'
@@ -237,13 +236,25 @@ theorem amr_contains (g : Grid) (b : Box3 ℝ) (p : V3 ℝ) (hx : 0 < g.nx) (hy 
     unfold InBox blockBox at hb'
     simp only [ofNat_real] at hb'
     obtain ⟨c1, c2, c3, c4, c5, c6⟩ := hb'
-    have ex : ix = jx := blockIndex_unique g.nx hx p.x b.ax b.sx sx jx c1 c2
-    have ey : iy = jy := blockIndex_unique g.ny hy p.y b.ay b.sy sy jy c3 c4
-    have ez : iz = jz := blockIndex_unique g.nz hz p.z b.az b.sz sz jz c5 c6
+    have ex : ix = jx := blockIndex_unique g.nx hx p.x b.ax b.sx sx jx hx1 hx2 c1 c2
+    have ey : iy = jy := blockIndex_unique g.ny hy p.y b.ay b.sy sy jy hy1 hy2 c3 c4
+    have ez : iz = jz := blockIndex_unique g.nz hz p.z b.az b.sz sz jz hz1 hz2 c5 c6
     subst ex ey ez
     have := descend_unique (g.block ix iy iz) 0 _ p (hpos ix iy iz) hin π' hπ' hin'
     show gridKey ix iy iz (descend (g.block ix iy iz) 0 p (blockBox g b ix iy iz)).1 = _
     rw [this]; simp
+
+/-- the look-up is total, for EVERY numeric type (`Float` included), every box and every position,
+with no assumption on the position or on rounding: `get_key(position)` / `get_cell(position)`
+return the key of a leaf of the grid (the clamped block and child indices, fix 2fae05a, never
+leave the arrays) -/
+theorem amr_locate_total {α : Type} [Add α] [Sub α] [Mul α] [Div α] [OfScientific α] [GridNum.Trunc α] [OfInt α]
+    (g : Grid) (hx : 0 < g.nx) (hy : 0 < g.ny) (hz : 0 < g.nz) (b : Box3 α) (p : V3 α) :
+    (gridLocate g b p).1 ∈ gridKeys g ∧
+    blockIndex g.nx p.x b.ax b.sx < g.nx ∧ blockIndex g.ny p.y b.ay b.sy < g.ny ∧
+    blockIndex g.nz p.z b.az b.sz < g.nz :=
+  ⟨gridLocate_mem g hx hy hz b p, blockIndex_lt g.nx hx _ _ _, blockIndex_lt g.ny hy _ _ _,
+    blockIndex_lt g.nz hz _ _ _⟩
 
 /-- non-vacuity: a 3×1×2 grid of once-refined blocks is well-formed, a point inside it exists -/
 example : (Grid.mk' 3 1 2 1).WF :=
@@ -278,8 +289,20 @@ theorem cartesian_unique_cell (box : Box3 ℝ) (n : I3) (px py pz : Bool) (p : V
   obtain ⟨ax0, ax1, ax2, ax3⟩ := axis_index n.x hnx box.ax box.sx p.x sx hx1 hx2
   obtain ⟨ay0, ay1, ay2, ay3⟩ := axis_index n.y hny box.ay box.sy p.y sy hy1 hy2
   obtain ⟨az0, az1, az2, az3⟩ := axis_index n.z hnz box.az box.sz p.z sz hz1 hz2
-  have hr : InRange n (cellIndices g p) := ⟨ax0, ax1, ay0, ay1, az0, az1⟩
-  have hin : InBox (cellBox g (cellIndices g p)) p := ⟨ax2, ax3, ay2, ay3, az2, az3⟩
+  -- in exact arithmetic the clamp of the top index never fires for a position of the box
+  have hraw : cellIndices g p = rawIndices g p := by
+    have ex : clampTop n.x (rawIndices g p).x p.x (box.ax + box.sx) = (rawIndices g p).x :=
+      clampTop_inactive _ _ _ _ ax1
+    have ey : clampTop n.y (rawIndices g p).y p.y (box.ay + box.sy) = (rawIndices g p).y :=
+      clampTop_inactive _ _ _ _ ay1
+    have ez : clampTop n.z (rawIndices g p).z p.z (box.az + box.sz) = (rawIndices g p).z :=
+      clampTop_inactive _ _ _ _ az1
+    show (⟨clampTop n.x (rawIndices g p).x p.x (box.ax + box.sx), clampTop n.y (rawIndices g p).y p.y (box.ay + box.sy),
+      clampTop n.z (rawIndices g p).z p.z (box.az + box.sz)⟩ : I3) = rawIndices g p
+    rw [ex, ey, ez]
+  rw [hraw]
+  have hr : InRange n (rawIndices g p) := ⟨ax0, ax1, ay0, ay1, az0, az1⟩
+  have hin : InBox (cellBox g (rawIndices g p)) p := ⟨ax2, ax3, ay2, ay3, az2, az3⟩
   refine ⟨hr, hin, ?_, longIndex_roundtrip n _ hny hnz ⟨ay0, ay1⟩ ⟨az0, az1⟩,
     longIndex_range n _ ⟨ax0, ax1⟩ ⟨ay0, ay1⟩ ⟨az0, az1⟩⟩
   intro j hj
@@ -293,6 +316,23 @@ theorem cartesian_unique_cell (box : Box3 ℝ) (n : I3) (px py pz : Bool) (p : V
     simp only at ex ey ez
     show (⟨a, b, c⟩ : I3) = ⟨_, _, _⟩
     rw [ex, ey, ez]; rfl
+
+/-- rounding-robust form (every numeric type, `Float` included, no assumption on how the product
+`(p - anchor) * inverse_cellside` was rounded): if the truncated raw indices lie in `[0, ncell]` and
+the position is not above the top faces, `get_cell_indices` returns the indices of an existing
+cell.  (In doubles the raw index of a position of the box is at most `ncell`: the product is at
+most `ncell (1 + 3·2⁻⁵³)`.) -/
+theorem cartesian_index_robust {α : Type} [Add α] [Sub α] [Mul α] [Div α] [Neg α] [LT α] [LE α] [DecidableLT α]
+    [DecidableLE α] [OfScientific α] [GridNum.Trunc α] [OfInt α] (g : Grid α) (p : V3 α)
+    (hnx : 0 < g.n.x) (hny : 0 < g.n.y) (hnz : 0 < g.n.z)
+    (hx : 0 ≤ (rawIndices g p).x ∧ (rawIndices g p).x ≤ g.n.x ∧ p.x ≤ g.box.ax + g.box.sx)
+    (hy : 0 ≤ (rawIndices g p).y ∧ (rawIndices g p).y ≤ g.n.y ∧ p.y ≤ g.box.ay + g.box.sy)
+    (hz : 0 ≤ (rawIndices g p).z ∧ (rawIndices g p).z ≤ g.n.z ∧ p.z ≤ g.box.az + g.box.sz) :
+    InRange g.n (cellIndices g p) := by
+  obtain ⟨a1, a2⟩ := clampTop_range g.n.x _ p.x _ hnx hx.1 hx.2.1 hx.2.2
+  obtain ⟨b1, b2⟩ := clampTop_range g.n.y _ p.y _ hny hy.1 hy.2.1 hy.2.2
+  obtain ⟨c1, c2⟩ := clampTop_range g.n.z _ p.z _ hnz hz.1 hz.2.1 hz.2.2
+  exact ⟨a1, a2, b1, b2, c1, c2⟩
 
 /-- all cells have the same volume and the volumes of the `nx·ny·nz` cells sum to the box volume -/
 theorem cartesian_volumes (box : Box3 ℝ) (n : I3) (px py pz : Bool)
